@@ -669,12 +669,35 @@ void do_op(Ctx& c, int idx, const Op& op)
         else
           boost::static_pointer_cast<sg4::Comm>(p->act)->add_successor(s->act);
       });
-  } else if (k == "assign") { // SLOT HOST|DISK
+  } else if (k == "assign") { // SLOT HOST | SLOT SRC DST (comm) | SLOT DISK (io)
     if (auto* s = need_slot(a[0]))
       exc = guarded([&] {
         if (s->kind == "exec")
           boost::static_pointer_cast<sg4::Exec>(s->act)->set_host(hosts.at(a[1]));
+        else if (s->kind == "sendto") {
+          auto comm = boost::static_pointer_cast<sg4::Comm>(s->act);
+          if (a[1] != "-")
+            comm->set_source(hosts.at(a[1]));
+          if (a.size() > 2 && a[2] != "-")
+            comm->set_destination(hosts.at(a[2]));
+        } else if (s->kind == "io")
+          boost::static_pointer_cast<sg4::Io>(s->act)->set_disk(disks.at(a[1]));
       });
+  } else if (k == "comm_init") { // SLOT SIZE : unassigned host-to-host comm (DAG node)
+    exc = guarded([&] {
+      auto comm = sg4::Comm::sendto_init();
+      comm->set_payload_size((uint64_t)num(a[1]));
+      comm->set_name(a[0]);
+      slots[a[0]] = Slot{comm, nullptr, "sendto", c.aid};
+    });
+  } else if (k == "io_dag") { // SLOT SIZE read|write : unassigned I/O (DAG node)
+    exc = guarded([&] {
+      auto x = sg4::Io::init();
+      x->set_size((sg_size_t)num(a[1]));
+      x->set_op_type(a[2] == "read" ? sg4::Io::OpType::READ : sg4::Io::OpType::WRITE);
+      x->set_name(a[0]);
+      slots[a[0]] = Slot{x, nullptr, "io", c.aid};
+    });
   } else {
     if (!fs_op(c, idx, op, r, exc, skip))
       skip = true;
